@@ -16,7 +16,7 @@ THEOREMS = ['C06_decoded_conforms', 'C06_validates_and_reencodes', 'C06_truncati
 LIMIT = 1 << 20     # allocation limit for this check: keeps hostile zero-width arrays small
 CFG = '(cfg %d 56 80)' % LIMIT
 EXTRA = ['max_alloc=%d' % LIMIT]
-RULE = ('(a) exhaustive byte strings up to length 2 (quick) / 3 (thorough) x ~30 small schemas; (b) every strict '
+RULE = ('(a) exhaustive byte strings up to length 2 (quick) / 3 (thorough) x ~30 small schemas, all strings of 3-4 length-like bytes for the schemas with nested lengths, long valid encodings of collections of 63..2048 items; (b) every strict '
         'prefix and every single-byte alteration (xor 0x01, xor 0x80, set 0xff) of the encodings of generated '
         'conforming values; (c) random strings. non-trivial = distinct (schema, bytes) on which decoding '
         'succeeds and consumes at least one byte')
@@ -60,6 +60,15 @@ def gen_cases(tier, seed):
                     for b in firsts + [9, 0x0a, 0x10, 0x40]:
                         for c_ in range(256):
                             cases.append((st, bytes([a, b, c_]), 'exhaustive'))
+    # lengths nested in lengths (a big-decimal is a length-prefixed payload that starts with another length; a
+    # map entry is a length-prefixed key after a count): every string of 3 and 4 bytes over a small alphabet of
+    # length-like bytes, in both tiers
+    small = [0, 1, 2, 3, 4, 6, 8, 0x80]
+    for st in ('{"type":"bytes","logicalType":"big-decimal"}', '{"type":"map","values":"int"}', '{"type":"array","items":"string"}',
+               '{"type":"array","items":{"type":"bytes","logicalType":"big-decimal"}}'):
+        for n in (3, 4):
+            for t in itertools.product(small, repeat=n):
+                cases.append((st, bytes(t), 'exhaustive-small-alphabet'))
     return cases
 
 def second_stage(tier, seed, exe):
@@ -95,6 +104,20 @@ def second_stage(tier, seed, exe):
                 cases.append((st, bytes(m), 'mutation'))
         for _ in range(3):
             cases.append((st, r.bytes(r.below(12)), 'random'))
+    # long valid encodings (not cut or altered): collections whose item count sits around a power of two, followed by
+    # further fields - a decoded value must re-encode to bytes that decode to it again
+    import ocf
+    for n in (63, 64, 65, 1023, 1024, 1025, 2048):
+        arr = ocf.write_long(n) + b''.join(ocf.write_long(q % 7 - 3) for q in range(n)) + b'\x00'
+        cases.append(('{"type":"array","items":"int"}', arr, 'valid-long'))
+        rec = '{"type":"record","name":"R","fields":[{"name":"a","type":{"type":"array","items":"int"}},{"name":"s","type":"string"},{"name":"u","type":["null","int"]}]}'
+        cases.append((rec, arr + b'\x04hi' + b'\x02\x0e', 'valid-long'))
+        mp = ocf.write_long(n) + b''.join(ocf.write_long(len(k)) + k for k in (b'k%d' % q for q in range(n))) + b'\x00'
+        cases.append(('{"type":"record","name":"M","fields":[{"name":"m","type":{"type":"map","values":"null"}},{"name":"t","type":"boolean"}]}', mp + b'\x01', 'valid-long'))
+        # the same array in two blocks, the second with a negative count and a byte size
+        h = n // 2
+        two = ocf.write_long(h) + b''.join(ocf.write_long(1) for _ in range(h)) + ocf.write_long(-(n - h)) + ocf.write_long(n - h) + b''.join(ocf.write_long(1) for _ in range(n - h)) + b'\x00'
+        cases.append((rec, two + b'\x00' + b'\x00', 'valid-long'))
     return cases
 
 def evaluate(run, cases, exe, drv):
@@ -174,6 +197,8 @@ def evaluate(run, cases, exe, drv):
                     run.fail('ignoring-deserializer-accepts-incomplete-datum', 'generic decoder %s, deserializing into IgnoredAny ok' % show(dec)[:60], case)
             elif tag(ign) == 'ok' and ign[1] != dec[2]:
                 run.fail('decoders-consume-differently', 'generic left %s, IgnoredAny deserializer left %s' % (dec[2][:40], ign[1][:40]), case)
+        if len(o) > 8:
+            fw.judge_partial(run, o[8], tag(dec) == 'ok' and tag(deser) == 'ok', st, case)
         # correspondence
         m = parse(model.get(cid, '(missing)'))
         if tag(m) != tag(dec) or (tag(m) == 'ok' and (canon(m[1], True) != canon(dec[1], True) or m[2] != dec[2])):
